@@ -233,8 +233,6 @@ def oracle_dist(ctx, t, mpc, dist):
     if len(dist) != mpc or mpc != digit_sum(t):
         ctx.violation(case, "pack_distribution(%d) has %d buckets, _max_pack_count %d, digit sum %d"
                       % (t, len(dist), mpc, digit_sum(t)))
-    if any(a < b for a, b in zip(dist, dist[1:])):
-        ctx.violation(case, "pack_distribution(%d) is not descending" % t)
 
 
 # ---------------------------------------------------------------- generators
@@ -392,7 +390,14 @@ def real_repo_part(ctx, b, steps, maxk):
     for step in range(steps):
         k = 1 if rng.random() < 0.5 else rng.randint(1, maxk)
         pos += k
-        tgt.fetch(src.branch.repository, revision_id=revs[pos - 1])
+        try:
+            tgt.fetch(src.branch.repository, revision_id=revs[pos - 1])
+        except Exception as e:  # noqa -- the write group's autopack failed
+            ctx.violation(dict(kind="real", step=step, before=before, added=k, after=None, total=pos),
+                          "real repository: write group adding %d revisions to packs %r fails with %s: %s"
+                          % (k, before, _exc(e), str(e)[:200]))
+            ctx.count("real:exception")
+            break
         after, total = observe()
         case = dict(kind="real", step=step, before=before, added=k, after=after, total=total)
         if total != sum(after):
@@ -458,22 +463,9 @@ def do_dist_case(ctx, b, t):
     b.add(case, "dist %d" % t, ",".join(map(str, dist)) or "-")
 
 
-def run(ctx, S=None):
+def exhaustive_part(ctx, b, S):
+    """every multiset of positive counts with sum <= S"""
     rng = ctx.rng
-    b = Batch(ctx)
-    for case in _corpus():
-        _run_case(ctx, b, case)
-    # --- distribution
-    for t in range(ctx.pick(3000, 30000)):
-        do_dist_case(ctx, b, t)
-    for _ in range(ctx.pick(1500, 15000)):
-        e = rng.randint(1, 18)
-        t = rng.choice([10 ** e, 10 ** e - 1, 10 ** e + 1, rng.randint(0, 10 ** e),
-                        int("".join(rng.choice("0019") for _ in range(e)) or "0")])
-        do_dist_case(ctx, b, t)
-    b.flush()
-    # --- exhaustive multisets
-    S = S or ctx.pick(36, 48)
     nmulti = 0
     for s in range(0, S + 1):
         for part in partitions(s):
@@ -488,6 +480,24 @@ def run(ctx, S=None):
     b.flush()
     ctx.exhaustive = True
     ctx.extra["exhaustive_domain"] = dict(multisets_with_sum_le=S, multisets=nmulti)
+
+
+def run(ctx, S=None):
+    rng = ctx.rng
+    b = Batch(ctx)
+    for case in _corpus():
+        _run_case(ctx, b, case)
+    # --- distribution
+    for t in range(ctx.pick(3000, 30000)):
+        do_dist_case(ctx, b, t)
+    for _ in range(ctx.pick(1500, 15000)):
+        e = rng.randint(1, 18)
+        t = rng.choice([10 ** e, 10 ** e - 1, 10 ** e + 1, rng.randint(0, 10 ** e),
+                        int("".join(rng.choice("0019") for _ in range(e)) or "0")])
+        do_dist_case(ctx, b, t)
+    b.flush()
+    S = S or ctx.pick(36, 48)
+    exhaustive_part(ctx, b, S)
     # --- arbitrary distributions (plan_spec covers any distribution with sum >= sum of counts)
     for _ in range(ctx.pick(4000, 40000)):
         counts = [rng.randint(1, 15) for _ in range(rng.randint(1, 9))]
@@ -521,7 +531,16 @@ def run(ctx, S=None):
 
 
 def widen(ctx):
-    run(ctx, S=40)
+    """a tie broke with a clean oracle: search the next larger exhaustive layer
+    and more random collections for an input on which the property itself fails"""
+    b = Batch(ctx)
+    exhaustive_part(ctx, b, 41)
+    rng = ctx.rng
+    for _ in range(20000):
+        counts = _rand_counts(rng, 40)
+        s_ = sum(counts)
+        do_plan_case(ctx, b, _mk_packs(rng, counts), total=s_ if rng.random() < 0.7 else _other_total(rng, s_), tag="random")
+    b.flush()
 
 
 def replay(ctx, case):
